@@ -280,18 +280,21 @@ def apply_exact(o, x, y):
         return ('q', x * y)
     if o == 'div':
         return ('inf',) if y == 0 else ('q', x / y)
-    if y.denominator == 1:
+    if y.denominator == 1 and abs(y.numerator) <= 1024:
         n = y.numerator
         if n >= 0:
             return ('q', x ** n)
         return ('inf',) if x == 0 else ('q', 1 / x ** (-n))
-    # non-integer exponent: IEEE pow on the (exactly known) operands
+    # non-integer (or huge) exponent: IEEE pow on the (exactly known) operands
     xf, yf = float(x), float(y)
-    if xf < 0:
+    if xf < 0 and y.denominator != 1:
         return ('inf',)
     if xf == 0:
         return ('inf',) if yf < 0 else ('q', F(0))
-    return ('float', math.pow(xf, yf))
+    try:
+        return ('float', math.pow(xf, yf))
+    except OverflowError:
+        return ('inf',)
 
 
 def physical(sd, unit):
@@ -383,6 +386,22 @@ def check_value(got, want, exact, scale):
     return abs(F(got) - q) <= F(TOL) * max(abs(q), scale)
 
 
+def vtol(c, an, y1, y2):
+    """tolerant regime: magnitude against which 1e-12 is taken, following the conditioning of the operator"""
+    s_ = max(an['vscale'], abs(y1), abs(y2))
+    o = c['o']
+    if o in ('add', 'sub'):
+        return s_
+    if o == 'mul':
+        return s_ * max(abs(y1), abs(y2), 1)
+    if o == 'div':
+        return s_ / abs(y2) * max(1, abs(y1) / abs(y2)) if y2 != 0 else s_
+    if y2.denominator == 1 and abs(y2.numerator) <= 1024 and y1 != 0:
+        n = y2.numerator
+        return abs(y1) ** n * max(1, abs(n)) * max(1, s_ / abs(y1))
+    return s_
+
+
 def check_wave(got, want, exact):
     if exact:
         return F(got) == want
@@ -427,7 +446,7 @@ def verify_result(c, an, r, what):
         want, y1, y2, ok = expected_at(c, an, xq)
         if not exact and ambiguous(c, an, xq, y1, y2):
             continue
-        if not check_value(r['value'][i], want, exact and ok, an['vscale']):
+        if not check_value(r['value'][i], want, exact and ok, vtol(c, an, y1, y2)):
             return (f'{what}: value[{i}] at wavelength {x} is {r["value"][i]}, expected {c["o"]}({float(y1)}, {float(y2)})'
                     f' from the interpolated/fill values of the operands')
     return None
@@ -461,10 +480,14 @@ def oracle(c, impl):
             return m
         if 'comm' in impl:
             cm = impl['comm']
-            if 'err' in cm:
+            if pair_refused(c, cm):
+                cm = None
+            elif 'err' in cm:
                 return f'commuted operation raised {cm["err"]}'
             same = c['a']['wu'] == c['b']['wu']
-            if same and c['a']['vu'] == c['b']['vu']:
+            if cm is None:
+                pass
+            elif same and c['a']['vu'] == c['b']['vu']:
                 if cm['wave'] != impl['wave'] or not all(x == y or (x != x and y != y) for x, y in zip(cm['value'], impl['value'])) \
                         or (cm['wu'], cm['vu']) != (impl['wu'], impl['vu']):
                     return f'{c["o"]} is not commutative: a.b and b.a differ'
@@ -474,6 +497,8 @@ def oracle(c, impl):
                     return m
         if 'alt' in impl:
             al = impl['alt']
+            if pair_refused(c, al):
+                return None
             if 'err' in al:
                 return f'operation on the unit-converted operands raised {al["err"]}'
             m = compare_rescaled(c, an, impl, al, fac(c['a']['wu'], c['alt'][0]), c['alt'][0], 'result in other units',
@@ -530,6 +555,12 @@ def oracle(c, impl):
     return None
 
 
+def pair_refused(c, r):
+    """secondary computations (commuted / other units): the refusal of a two-element fill value is the known finding
+    C13-fill-pair and is judged on the primary result only"""
+    return isinstance(c['fill'], list) and not PAIR_FILL_FIXED and r.get('err') == 'ValueError'
+
+
 def compare_rescaled(c, an, base, other, f, unit, what, exact):
     """`other` must be `base` with the grid multiplied by the exact unit factor f and the same values (valueunit None)"""
     if other['wu'] != unit:
@@ -550,7 +581,7 @@ def compare_rescaled(c, an, base, other, f, unit, what, exact):
                 continue
             if math.isfinite(x) != math.isfinite(y):
                 return f'{what}: value[{i}] finiteness differs'
-            if math.isfinite(x) and abs(x - y) > TOL * max(abs(x), float(an['vscale'])):
+            if math.isfinite(x) and abs(x - y) > TOL * max(abs(x), float(vtol(c, an, y1, y2))):
                 return f'{what}: value[{i}] = {y} differs from {x}'
     return None
 
@@ -560,6 +591,10 @@ def compare(c, impl, model):
     op = c['op']
     if 'err' in model and c.get('refl') and op in ('scalar', 'vector') and 'err' not in impl:
         return None     # a reflected form that works is judged by the oracle alone (the property does not pin TypeError)
+    if op == 'spec' and isinstance(c['fill'], list) and ('err' in impl) != ('err' in model) and not PAIR_FILL_FIXED:
+        an = analyse(c)
+        if not an.get('undefined') and an['near'] and not an['exact']:
+            return None    # two-point grid or not hinges on a ratio within 1e-9 of an integer (float conversion)
     if ('err' in impl) != ('err' in model):
         return (f'implementation {"raised " + impl["err"] if "err" in impl else "returned a value"}, '
                 f'model {"raised " + model["err"] if "err" in model else "returned a value"}')
@@ -593,7 +628,7 @@ def compare(c, impl, model):
             _, y1, y2, ok = expected_at(c, an, xq)
             if not exact and ambiguous(c, an, xq, y1, y2):
                 continue
-            if not check_value(x, mv, exact and ok, an['vscale']):
+            if not check_value(x, mv, exact and ok, vtol(c, an, y1, y2)):
                 return f'value[{i}]: impl {x} model {mv}'
         return None
     if len(impl['wave']) != len(model['wave']) or len(impl['value']) != len(model['value']):
